@@ -51,6 +51,13 @@ def run(ck, tier):
         vlib.harness(["selfsweep", "-n", 12 if thorough else 4, "-seed", ck.seed, "-out", ps], cmd="vpals", timeout=3400)
         with open(p, "a") as f:
             f.write(open(ps).read())
+        # a driver stopped by its memory guard leaves a final "runaway" record: not a case, a verdict of its own
+        allrec = vlib.read_ndjson(p)
+        for e in allrec:
+            if e.get("op") == "runaway":
+                ck.violation("the PALS pipeline allocated more than %d MB on one comparison of a few kb (%s): no result, unbounded work"
+                             % (e["heap"] >> 20, e.get("case")), {"kind": "pals-runaway", "seed": ck.seed, "record": e})
+        vlib.write_ndjson(p, [e for e in allrec if e.get("op") != "runaway"])
         v, r = vlib.validate("Pals", "PalsTrace", "PalsTrace.cfg", p, include=["Align"], timeout=3400)
         evs = vlib.read_ndjson(p)
         nh = sum(len(ps["hits"]) for e in evs for ps in e["passes"])
